@@ -100,8 +100,11 @@ impl Method for Vidya {
 		self.up_sum += change * (change > 0.) as u8 as ValueType;
 		self.dn_sum -= change * (change < 0.) as u8 as ValueType;
 
-		self.last_output = if self.up_sum != 0. || self.dn_sum != 0. {
-			let cmo = ((self.up_sum - self.dn_sum) / (self.up_sum + self.dn_sum)).abs();
+		// the running sums may keep rounding residues of either sign after large changes have left the
+		// window: divide only by a positive total and keep the ratio inside its mathematical range
+		let sum = self.up_sum + self.dn_sum;
+		self.last_output = if sum > 0. {
+			let cmo = ((self.up_sum - self.dn_sum) / sum).abs().min(1.);
 			let f_cmo = self.f * cmo;
 			input.mul_add(f_cmo, (1.0 - f_cmo) * self.last_output)
 		} else {
